@@ -70,6 +70,28 @@ func geoCheck2(op string, v []float64) (bool, string, string) {
 			}
 		}
 		return geoCheck2("rect-covers", []float64{lat, lon, r, (lo + hi) / 2, 1})
+	case "rect-history":
+		// lat, lon, radius: the rectangle of a centre does not depend on which
+		// call came before. Primers: the centre whose radians (degrees) are this
+		// centre's degrees (unit mix-ups in a memo key), the same centre with
+		// another radius, another centre with the same radius.
+		lat, lon, r := v[0], v[1], v[2]
+		type rc [4]float64
+		call := func(la, lo, m float64) rc {
+			a, b, c, d := geo.RectFromCenter(la, lo, m)
+			return rc{a, b, c, d}
+		}
+		base := call(lat, lon, r)
+		const rad = math.Pi / 180
+		for _, p := range [][3]float64{{lat / rad, lon / rad, r}, {lat * rad, lon * rad, r}, {lat, lon, r / 2}, {lat, lon, r * 3}, {-lat, lon, r}, {lat, lon + 1, r}} {
+			if math.Abs(p[0]) > 90 || math.Abs(p[1]) > 180 {
+				continue
+			}
+			call(p[0], p[1], p[2])
+			if again := call(lat, lon, r); again != base {
+				return true, fmt.Sprintf("the same rectangle %v after a call for (%v,%v,%v)", base, p[0], p[1], p[2]), fmt.Sprint(again)
+			}
+		}
 	case "rect-shape":
 		lat, lon, r := v[0], v[1], v[2]
 		minLat, minLon, maxLat, maxLon := geo.RectFromCenter(lat, lon, r)
@@ -118,6 +140,9 @@ func geoCheck2(op string, v []float64) (bool, string, string) {
 		p := geometry.Point{X: plon, Y: plat}
 		pt, sp := geojson.NewPoint(p), geojson.NewSimplePoint(p)
 		got := []bool{c.Contains(pt), c.Contains(sp), c.Intersects(pt), c.Intersects(sp), pt.Within(c), sp.Within(c), pt.Intersects(c), sp.Intersects(c)}
+		// the same position with a third ordinate: still a point
+		pz := geojson.NewPointZ(p, 12)
+		got = append(got, c.Contains(pz), c.Intersects(pz), pz.Within(c), pz.Intersects(c))
 		same := true
 		for _, g := range got {
 			if g != got[0] {
@@ -267,7 +292,7 @@ func runC14(r *rt.Run) {
 	r.Bounds["radii"] = radii
 	r.Bounds["bearing_step_deg"] = bstep
 	r.Bounds["fractions"] = []float64{1, 0.999, 0.5}
-	r.Rule = "full product: latitudes (incl. values with lat + r/R within +-4 ulp of the pole for every radius) x longitudes x radii x probe bearings x distance fractions {1, 0.999, 0.5}: the reference destination point must lie inside the rectangle (1 cm slack); per (lat, lon, radius): no NaN, world bounds, full longitude range when the disc reaches a pole or crosses the antimeridian, degenerate rectangle for unresolvable radii; dense grid of 45 (80) irregular latitudes x 5 (8) longitudes x 17 mantissas x 7 decades of radii with the rim location of extreme longitude on either side found by ternary search; antimeridian approach (disc ending from 10 m short of to 10 m beyond the antimeridian in 12 steps, 6 latitudes x 4 radii, both sides); non-trivial = radius >= 1 m"
+	r.Rule = "full product: latitudes (incl. values with lat + r/R within +-4 ulp of the pole for every radius) x longitudes x radii x probe bearings x distance fractions {1, 0.999, 0.5}: the reference destination point must lie inside the rectangle (1 cm slack); per (lat, lon, radius): no NaN, world bounds, full longitude range when the disc reaches a pole or crosses the antimeridian, degenerate rectangle for unresolvable radii; dense grid of 45 (80) irregular latitudes x 5 (8) longitudes x 17 mantissas x 7 decades of radii with the rim location of extreme longitude on either side found by ternary search; call histories (the rectangle of a centre after calls for unit-mixed-up / neighbouring centres and radii, single worker); antimeridian approach (disc ending from 10 m short of to 10 m beyond the antimeridian in 12 steps, 6 latitudes x 4 radii, both sides); non-trivial = radius >= 1 m"
 	r.Assume = []string{"sphere radius 6371e3 m", "reference destination: verif/mc/sphere", "decided on the numeric lattice only"}
 	all := append(append([]float64(nil), lats...), tang...)
 	r.States.Add(int64(len(all) * len(lons) * len(radii)))
@@ -333,6 +358,19 @@ func runC14(r *rt.Run) {
 			}
 		}
 	})
+	// call history: one worker, so that nothing but the sequence itself can matter
+	{
+		w := r.Worker()
+		for _, lat := range []float64{45, 0.7853981633974483, 10, 0.5, -33, 1.2345, 60, 89} {
+			for _, lon := range []float64{90, 1.5707963267948966, 20, 0.25, 151, -2, 179.9} {
+				for _, rr := range []float64{1, 100000, 1e6} {
+					w.Trans++
+					geoRun(w, "rect-history", lat, lon, rr)
+				}
+			}
+		}
+		w.Flush()
+	}
 	// antimeridian approach: the disc's extreme longitude ends from 10 m short
 	// of to 10 m beyond the antimeridian
 	{
@@ -411,7 +449,7 @@ func runC13(r *rt.Run) {
 	r.Bounds["absolute_offsets_m"] = offsets
 	r.Bounds["bearing_step_deg"] = bstep
 	r.Bounds["step_counts"] = "-1..4096"
-	r.Rule = "full product centres (7 special + 13 x 10 grid of latitudes incl. near-poles x longitudes incl. antimeridian) x radii (15 boundary values + 13 mantissas x 11 decades from 1 mm to 10,000 km) x bearings x distance factors (probe = reference destination point; every 30 degrees also with the probe longitude written +-360 degrees away) as Point and SimplePoint, both operand orders, contains and intersects; monotonicity along the radius alphabet; circle-circle over the same grid x radius alphabet; serialisation (re-parsed under 5 option sets incl. RequireValid) / polygon for radii incl. negative, NaN, Inf, 3piR and every step count -1..4096; non-trivial = probe outside the tolerance band"
+	r.Rule = "full product centres (7 special + 13 x 10 grid of latitudes incl. near-poles x longitudes incl. antimeridian) x radii (15 boundary values + 13 mantissas x 11 decades from 1 mm to 10,000 km) x bearings x distance factors (probe = reference destination point; every 30 degrees also with the probe longitude written +-360 degrees away) as Point, SimplePoint and Point with a third ordinate, both operand orders, contains and intersects; monotonicity along the radius alphabet; circle-circle over the same grid x radius alphabet; serialisation (re-parsed under 5 option sets incl. RequireValid) / polygon for radii incl. negative, NaN, Inf, 3piR and every step count -1..4096; non-trivial = probe outside the tolerance band"
 	r.Assume = []string{"sphere radius 6371e3 m", "reference distance: verif/mc/sphere; inside the stated band (max(1 mm, 1e-8 r)) either answer is accepted"}
 	r.States.Add(int64(len(centres) * len(radii)))
 	r.ParFor(len(centres)*len(radii), func(i int, w *rt.Worker) {
